@@ -33,6 +33,12 @@ UTF8_ALPHA = [bytes([c]) for c in (0x00, 0x41, 0x7f, 0x80, 0x8f, 0x90, 0x9f, 0xa
 NAME_KINDS = ['bus', 'iface', 'member', 'error', 'path']
 
 
+# names the code base itself treats specially somewhere (driver, local interface and path, error namespace, a unique name):
+# every continuation of them by up to two more alphabet characters is enumerated too, through every route
+SPECIAL_PREFIXES = [b'org.freedesktop.DBus', b'org.freedesktop.DBus.Local', b'/org/freedesktop/DBus', b'/org/freedesktop/DBus/Local',
+                    b'org.freedesktop.DBus.Error.Failed', b'org.freedesktop.DBus.Peer', b':1.0']
+
+
 def enum_strings(alpha, maxlen, prefix=b''):
     for extra in range(0, maxlen - len(prefix) + 1):
         for t in itertools.product(alpha, repeat=extra):
@@ -130,6 +136,8 @@ def embed_in_message(kind, s):
     """A message that is valid iff s is valid for kind (everything else is fine)."""
     if kind == 'bus':
         m = R.method_call(1, s, '/a', 'a.b', 'M')
+    elif kind == 'sender':
+        m = R.Msg(R.MT_SIGNAL, 0, 1, [(R.F_PATH, (b'o', b'/a')), (R.F_INTERFACE, (b's', b'a.b')), (R.F_MEMBER, (b's', b'M')), (R.F_SENDER, (b's', s))], [])
     elif kind == 'iface':
         m = R.method_call(1, None, '/a', s, 'M')
         if s == R.LOCAL_IFACE:
@@ -164,10 +172,11 @@ def task_messages(t):
         data = embed_in_message(kind, s)
         if data is None:
             continue
-        if G.is_gray(kind, s):
+        gk = 'bus' if kind == 'sender' else kind
+        if G.is_gray(gk, s):
             continue
         n += 1
-        ref = G.is_valid(kind, s)
+        ref = G.is_valid(gk, s)
         case = {'phase': 'message', 'kind': kind, 'string': s.hex()}
         try:
             r = h.cmd('DEMARSHAL ' + data.hex())
@@ -177,7 +186,7 @@ def task_messages(t):
         acc = ' dm=1' in r
         hits['msg-valid' if ref else 'msg-invalid'] = hits.get('msg-valid' if ref else 'msg-invalid', 0) + 1
         if acc != ref:
-            why = G.why_invalid(kind, s)
+            why = G.why_invalid(gk, s)
             if acc:
                 out.append(Violation('accepted-but-invalid', 'message:%s:%s' % (kind, why),
                                      'message parser accepts a message whose %s value is %r (grammar: %s)' % (kind, s, why), case))
@@ -274,6 +283,9 @@ def build_tasks(tier):
     for a in UTF8_ALPHA:
         tasks.append((task_valenum, ('utf8', UTF8_ALPHA, 4, a)))
         tasks.append((task_valenum, ('utf8', UTF8_ALPHA, 4 if tier == 'quick' else 5, b'a' + a)))
+    for kind in NAME_KINDS:
+        for p in SPECIAL_PREFIXES:
+            tasks.append((task_valenum, (kind, NAME_ALPHA, len(p) + 2, p)))
     lad = ladder_strings()
     for i in range(0, len(lad), 40):
         tasks.append((task_ladders, lad[i:i + 40]))
@@ -281,6 +293,12 @@ def build_tasks(tier):
     mlen = 3 if tier == 'quick' else 4
     for kind in NAME_KINDS:
         items = [(kind, s) for s in enum_strings(NAME_ALPHA, mlen)]
+        for i in range(0, len(items), 400):
+            tasks.append((task_messages, items[i:i + 400]))
+    for kind in NAME_KINDS + ['sender']:
+        items = [(kind, s) for s in enum_strings(NAME_ALPHA, 2 if kind != 'sender' else 3)] if kind == 'sender' else []
+        for p in SPECIAL_PREFIXES:
+            items += [(kind, s) for s in enum_strings(NAME_ALPHA, len(p) + 2, p)]
         for i in range(0, len(items), 400):
             tasks.append((task_messages, items[i:i + 400]))
     items = [('sig', s) for s in enum_strings(SIG_SMALL, 4 if tier == 'quick' else 5)]
@@ -293,6 +311,9 @@ def build_tasks(tier):
     items = [('bus', s) for s in enum_strings(BUS_ALPHA, blen)]
     for kind in ('iface', 'member', 'path', 'sender'):
         items += [(kind, s) for s in enum_strings(BUS_ALPHA, blen)]
+    for kind in ('bus', 'iface', 'member', 'path', 'sender'):
+        for p in SPECIAL_PREFIXES:
+            items += [(kind, s) for s in enum_strings(BUS_ALPHA, len(p) + (1 if tier == 'quick' else 2), p)]
     items += [(k, s) for k, s in lad if k in ('bus', 'iface', 'member', 'path') and len(s) < 900]
     for i in range(0, len(items), 300):
         tasks.append((task_bus, items[i:i + 300]))
